@@ -131,7 +131,7 @@ impl Property for C19 {
     type Case = Case;
     const ID: &'static str = "C19";
     fn cases(tier: Tier) -> u64 {
-        tier.pick(4_000, 120_000)
+        tier.pick(8_000, 150_000)
     }
     fn strategy(tier: Tier) -> BoxedStrategy<Case> {
         let n = tier.pick(30usize, 60usize);
